@@ -193,6 +193,19 @@ def work_generated(ctx, seed):
                     k = misc.transform_basis_name(nm)
                     if k not in idx or sorted(idx[k]['versions']) != sorted(b['versions']):
                         ctx.violation('curate.create_metadata_file', 'generated-versions', 'generated basis %r: versions %s not indexed' % (nm, b['versions']), replay)
+                        continue
+                    # the listed table file is the file that is there, and its elements are the listed ones
+                    for ver, vi in idx[k]['versions'].items():
+                        want = os.path.join(b['sub'], '%s.%s.table.json' % (b['basename'], ver)) if b['sub'] else '%s.%s.table.json' % (b['basename'], ver)
+                        if vi['file_relpath'] != want or not os.path.isfile(os.path.join(gd.path, vi['file_relpath'])):
+                            ctx.violation('curate.create_metadata_file', 'generated-file_relpath', 'generated basis %r version %s: the index lists table file %r, the file present is %r'
+                                          % (nm, ver, vi['file_relpath'], want), replay)
+                        elif sorted(vi['elements'], key=int) != [str(z) for z in sorted(b['elements'])]:
+                            ctx.violation('curate.create_metadata_file', 'generated-elements', 'generated basis %r version %s: listed elements %s, data has %s'
+                                          % (nm, ver, vi['elements'], b['elements']), replay)
+                    if idx[k].get('relpath', '') != b['sub'] or idx[k].get('basename') != b['basename']:
+                        ctx.violation('curate.create_metadata_file', 'generated-relpath', 'generated basis %r: relpath/basename %r/%r, files are under %r/%r'
+                                      % (nm, idx[k].get('relpath'), idx[k].get('basename'), b['sub'], b['basename']), replay)
     finally:
         gd.cleanup()
 
